@@ -5,7 +5,10 @@
 package main
 
 import (
+	"context"
 	"fmt"
+	"github.com/acquirecloud/golibs/kvs"
+	"time"
 
 	"verifharness/internal/hx"
 	"verifharness/internal/kvx"
@@ -401,6 +404,53 @@ func main() {
 		ops := []kvx.Op{{K: "N", Recs: recs}, {K: "D", Key: gone}, {K: "M", Keys: ks}, {K: "G", Key: ks[len(ks)-1]},
 			{K: "M", Keys: ks[:n/2]}, {K: "M", Keys: ks[n/2:]}}
 		emit("both", ops, "")
+	}
+
+	// 1f. both backends, with time really passing (in-memory: a lease of 3 ms and a sleep; Redis: a lease of 1 s and the
+	//     server's clock moved 2 s): a record rewritten WITHOUT expiration before its old expiration passes stays, also
+	//     after other keys were written; a record rewritten with a short lease goes
+	for _, b := range []*kvx.Backend{inmemB, redisB} {
+		for round := 0; round < 6; round++ {
+			b.Reset()
+			ctx := context.Background()
+			lease := 3 * time.Millisecond
+			if b.MR != nil {
+				lease = time.Second
+			}
+			exp := time.Now().Add(lease)
+			r0, err := b.S.Put(ctx, kvs.Record{Key: "k", Value: []byte("old"), ExpiresAt: &exp})
+			if err != nil {
+				s.DirectViolation(0, "rewrite sequence: Put failed", err.Error())
+				break
+			}
+			nr := kvs.Record{Key: "k", Value: []byte("new")}
+			how := []string{"Put", "PutMany", "CasByVersion"}[round%3]
+			switch how {
+			case "Put":
+				_, err = b.S.Put(ctx, nr)
+			case "PutMany":
+				err = b.S.PutMany(ctx, []kvs.Record{{Key: "x", Value: []byte("x")}, nr})
+			default:
+				nr.Version = r0.Version
+				_, err = b.S.CasByVersion(ctx, nr)
+			}
+			if err != nil {
+				continue // 3 ms were over before the rewrite (a busy machine): nothing to judge
+			}
+			if b.MR != nil {
+				b.MR.FastForward(2 * time.Second)
+			} else {
+				time.Sleep(6 * time.Millisecond)
+			}
+			b.S.Put(ctx, kvs.Record{Key: "other", Value: []byte("o")})
+			b.S.Create(ctx, kvs.Record{Key: "other2", Value: []byte("o")})
+			if got, err := b.S.Get(ctx, "k"); err != nil || string(got.Value) != "new" || got.ExpiresAt != nil {
+				s.DirectViolation(0, "a record rewritten without expiration before its old expiration passed is gone (or changed) after that expiration and a write of another key",
+					map[string]any{"backend": b.Name, "rewritten_by": how, "get": kvx.Class(err)})
+				break
+			}
+		}
+		s.Count("rewrite-before-old-expiration:" + b.Name)
 	}
 
 	// 2. random sequences over the full alphabet
